@@ -50,7 +50,13 @@ func identsOf(x ast.Expr, out map[string]bool) {
 			if fn == nil {
 				walk(e.Fun, bound)
 			}
-			for _, a := range args {
+			for i, a := range args {
+				if fn != nil && fn.Name == "setf" && i == 1 {
+					continue // field name
+				}
+				if fn != nil && (fn.Name == "smt" || fn.Name == "unmarshal" || fn.Name == "zero" || fn.Name == "jsonok" || fn.Name == "jsondec") && i == 0 {
+					continue // sort name literal
+				}
 				walk(a, nb)
 			}
 		case *ast.BinaryExpr:
